@@ -38,7 +38,7 @@ def tol(d):
 def cases(tier, seed):
     out = []
     for (N, d) in pairs(tier):
-        out.append({'kind': 'gamma', 'seed': 0, 'params': {'N': N, 'd': d}})
+        out.append({'kind': 'gamma', 'seed': case_seed('C15', seed, 'gamma', N, d), 'params': {'N': N, 'd': d}})
         out.append({'kind': 'helpers', 'seed': case_seed('C15', seed, N, d), 'params': {'N': N, 'd': d}})
     # the cost of one pair grows like C(N+d-1,d)^2 x prod(i_n+1): deal the expensive pairs out first so that the shards
     # (cases[shard::nshards]) are balanced
